@@ -7,7 +7,9 @@ StringNode::destroy, MemoryPool::destroy and Allocator::deallocate.  The state
 is the set of released handles, a handle being the canonical text of the
 released expression (first argument, or the object for MemoryPool::destroy).
 A handle is forgotten when any variable or field it mentions is assigned,
-incremented, re-declared or has its address taken.  Releasing a handle that
+incremented, re-declared, has its address taken, is the object of a non-const
+method call (not through a pointer) or is bound to a non-const reference
+parameter.  Releasing a handle that
 is still in the set is refuted: pushing one slot twice on the free list makes
 the list cyclic (every later allocation returns the same slot), releasing a
 block twice is undefined behaviour in the user's allocator.
@@ -79,6 +81,21 @@ def run(ctx, prog, rule="R-ONCEFREE"):
                 return mentions(fn_, tgt) or frozenset([("?", 0)])
             if st["k"] == "DeclStmt":
                 return frozenset(("d", dd["d"]) for dd in st["decls"])
+            if st["k"] in P.CALL_KINDS and e not in site_ids:
+                out = set()
+                # a non-const method called on the object itself (not through a pointer) may re-seat it
+                if st["k"] == "CXXMemberCallExpr" and "obj" in st and fn_.s(st["obj"]).get("tk") != "ptr" \
+                        and not st.get("callee", {}).get("key", "").endswith(" const"):
+                    out |= mentions(fn_, st["obj"])
+                # an argument bound to a non-const reference parameter may be re-seated by the callee
+                callee = prog.fns.get(st.get("callee", {}).get("key"))
+                if callee is not None:
+                    for idx, a in enumerate(st.get("args", [])):
+                        if idx < len(callee.params):
+                            t = callee.params[idx]["t"].strip()
+                            if t.endswith("&") and not t.endswith("&&") and not t.startswith("const "):
+                                out |= mentions(fn_, a)
+                return frozenset(out)
             return frozenset()
 
         def transfer(fn_, e, s_):
